@@ -321,6 +321,13 @@ def run_refill(case, ctx, mon):
     # lag-2048 repetition between consecutive batches
     rep = float(np.mean(np.concatenate(batches[1:-1]) == np.concatenate(batches[2:]))) if R >= 2 else 0.0
     mon.check(rep < 0.01, "no-lag-2048-repetition", fraction=rep)
+    # save/load must not hand the same unconsumed draws to several objects
+    s.cms[:] = 0
+    s.add(key, 40)
+    l1 = state.save_load(s, kind, False, False)
+    l2 = state.save_load(s, kind, False, True)
+    for name, x, y in (("copy-vs-copy", l1, l2), ("copy-vs-original", l1, s)):
+        mon.check(float(np.mean(np.asarray(x.rand_nums) == np.asarray(y.rand_nums))) < 0.01, "loaded-copies-draw-their-own-numbers", which=name, kind=kind)
     if case.get("processes"):
         outs = []
         for _ in range(2):
